@@ -335,6 +335,46 @@ class Analysis:
         return None
 
 
+def direct_engine_store(an, S, fname):
+    """a function of the engine that stores a computed value straight into S.fname (struct literal or assignment) without going through the
+    public constructor / setter: `Self { batch_size: limit.or(self.batch_size), .. }` in a trait method the optimizer calls.  Values that are
+    constants, copies of the same field of another S, or parameters of the public constructors themselves (handled by engine_sets) do not count."""
+    f = an.f
+    cands = set(f.constructors.get(S, ()))
+    cands |= set(d for d in f.fn_index if (d.startswith(S + '::') or d.startswith('<' + S + ' as ')))
+    for d in sorted(cands):
+        if '{closure' in d:
+            continue
+        rec = f.fn(d)
+        if rec is None or rec['crate'] in NON_ENGINE or re.match(r'^<.+ as (core|std|alloc)::', d):
+            continue
+        tags, op_tags = provenance(f, rec, S, an._acc_pred(S))
+        pub_inherent = rec.get('impl_adt') == S and rec.get('pub') and ' as ' not in d
+        for b in rec['bb']:
+            for st in b['s']:
+                if st[0] != '=':
+                    continue
+                dst, rv = st[1], st[2]
+                ops = []
+                if rv[0] == 'agg' and rv[1][0] == 'adt' and rv[1][1] == S:
+                    ops = [o for nm, o in zip(rv[1][4], rv[2]) if nm == fname]
+                elif dst[1] and isinstance(dst[1][-1], list) and dst[1][-1][0] == 'f' and len(dst[1][-1]) > 3 and dst[1][-1][3] == S and dst[1][-1][2] == fname and rv[0] == 'use':
+                    ops = [rv[1]]
+                for o in ops:
+                    tg = op_tags(o)
+                    line = st[3] if len(st) > 3 and isinstance(st[3], int) else 0
+                    if 'X' in tg:
+                        return (d, line)
+                    for x in tg:
+                        if isinstance(x, tuple) and not pub_inherent:
+                            if ' as ' in d:
+                                return (d, line)        # a parameter of a trait method: supplied by whoever drives the plan (optimizer rules)
+                            r = an.engine_sets(S, d, x[1])
+                            if r:
+                                return r
+    return None
+
+
 def check(ctx, facts=None, rule='operator-encoder-reads-every-option', floor_structs=0, floor_primary=0, an=None, exempt=None, type_exempt=TYPE_EXEMPT, **kw):
     facts = facts or ctx.facts
     an = an or Analysis(facts, **kw)
@@ -379,6 +419,8 @@ def check(ctx, facts=None, rule='operator-encoder-reads-every-option', floor_str
                 if site:
                     break
             ctor = pairs[0][0].rsplit('::', 1)[-1]
+            if not site:
+                site = direct_engine_store(an, S, fname)
             if not site:
                 ctx.skip(rule, inst, 'stored by %s() but never read by the encoder; no non-test code of the workspace passes a computed value there '
                          '(only constants or copies of the same field), so no plan the engine builds carries a non-default value' % ctor)
